@@ -32,6 +32,11 @@ type FakeChain struct {
 	Calls     int
 	// CallGate, when set, is consulted before every eth_call is answered (to hold an answer back)
 	CallGate func(to common.Address, method string)
+	// transactions (chaintx.go)
+	TxFail   int                  // the next TxFail transactions are refused by the node
+	Txs      []SentTx             // every transaction the node was handed, in order
+	OnTx     func(tx SentTx)      // called (outside the lock) for every accepted transaction
+	receipts map[common.Hash]bool // mined transactions
 }
 
 type ChainContract struct {
@@ -225,16 +230,18 @@ func (c *FakeChain) HeaderByNumber(ctx context.Context, number *big.Int) (*types
 func (c *FakeChain) PendingNonceAt(ctx context.Context, account common.Address) (uint64, error) {
 	return 0, nil
 }
-func (c *FakeChain) SuggestGasPrice(ctx context.Context) (*big.Int, error)  { return big.NewInt(1), nil }
-func (c *FakeChain) SuggestGasTipCap(ctx context.Context) (*big.Int, error) { return big.NewInt(1), nil }
+func (c *FakeChain) SuggestGasPrice(ctx context.Context) (*big.Int, error) { return big.NewInt(1), nil }
+func (c *FakeChain) SuggestGasTipCap(ctx context.Context) (*big.Int, error) {
+	return big.NewInt(1), nil
+}
 func (c *FakeChain) EstimateGas(ctx context.Context, call ethereum.CallMsg) (uint64, error) {
 	return 21000, nil
 }
 func (c *FakeChain) SendTransaction(ctx context.Context, tx *types.Transaction) error {
-	return errNotSupported
+	return c.sendTx(ctx, tx)
 }
 func (c *FakeChain) TransactionReceipt(ctx context.Context, txHash common.Hash) (*types.Receipt, error) {
-	return nil, errNotSupported
+	return c.receipt(txHash)
 }
 func (c *FakeChain) ChainID(ctx context.Context) (*big.Int, error) { return big.NewInt(1337), nil }
 func (c *FakeChain) BalanceAt(ctx context.Context, addr common.Address, blockNumber *big.Int) (*big.Int, error) {
